@@ -19,6 +19,7 @@ established the code is left as it is (the recognisers then see an unknown shape
           (an if/elif chain of raising branches == a sequence of guard clauses);
           `if c: continue` + rest (in a loop body), `if c: return` + rest (valueless, in a function body)
           ->  `if not c: rest`;  `if c: pass else: B` -> `if not c: B`;  `if not c: A else: B` -> `if c: B else: A`.
+          `if c: A; return E` .. rest .. `return E` (end of the function) -> `if c: A else: rest` ; `return E`.
  alias    a local name with exactly one store `x = <rhs>` whose uses all follow the store inside the same block is
           replaced by <rhs> when nothing <rhs> reads is stored in between (explicit stores to a prefix of a path read
           by <rhs>, subscripts stripped; a `set_*` / `_set_*` method called on an owner of such a path; "in between"
@@ -347,7 +348,8 @@ class Normaliser:
         if len(cands) != 1:
             return None
         callee = cands[0]
-        if callee.decorator_list or callee.name in self._stack:
+        if any(ast.unparse(d) not in ("override", "typing.override") for d in callee.decorator_list) \
+                or callee.name in self._stack:
             return None
         if any(isinstance(n, ast.Call) and ast.unparse(n.func) in (callee.name, 'self.' + callee.name)
                for n in ast.walk(callee)):
@@ -531,6 +533,19 @@ class Normaliser:
                     st = b[k]
                     if not isinstance(st, ast.If):
                         k += 1
+                        continue
+                    # `if c: A; return E` + rest + `return E` (same E, end of the function)  ->  if c: A else: rest; return E
+                    if (in_func and not st.orelse and st.body and isinstance(st.body[-1], ast.Return)
+                            and st.body[-1].value is not None and k < len(b) - 1 and isinstance(b[-1], ast.Return)
+                            and b[-1].value is not None and ast.dump(b[-1].value) == ast.dump(st.body[-1].value)
+                            and not any(isinstance(n, ast.Return) for s_ in st.body[:-1] + b[k + 1:-1]
+                                        for n in ast.walk(s_))):
+                        rest = b[k + 1:-1]
+                        st.body = st.body[:-1] or [ast.Pass()]
+                        st.orelse = rest
+                        b[k + 1:-1] = []
+                        changed = True
+                        self.log.append("guard:common-return")
                         continue
                     # statements after a terminator are dead
                     if st.body and isinstance(st.body[-1], TERMINATORS) and st.orelse:
@@ -1194,6 +1209,11 @@ class Box:
     def s_tail_helper(self, v):                         # expect: inline:_pick
         r = _pick(self.items, v)
         return (r, self.items)
+    def s_common_return(self, v):                       # expect: guard:common-return
+        if not v:
+            return self.items
+        self.items = {"v": v}
+        return self.items
     def s_sink(self, v):                                # expect: sink:r
         if v is None:
             raise ValueError("none")
@@ -1225,7 +1245,7 @@ _INPUTS = {
     "s_unroll": [(True,), (False,), (0,), ("x",)], "s_chain": [(0,), (1,), (5,), (6,)],
     "s_chain2": [(1, 2), (0, 2), (3, 2), (3, 10)], "s_ifexp": [(0,), (1,), ("",), ([1],)],
     "s_inverted": [(0,), (1,)], "s_counter": [([],), ([5, 6],)], "s_counter_read_after": [([],), ([5, 6],)], "s_fresh_object": [([1, 2],)], "s_match": [(1,), (2,), ("big",), (None,)], "s_early_return": [(True,), (False,)],
-    "s_value_helper": [(7,)], "s_tail_helper": [(None,), (0,), (-1,), (4,)], "s_tuple_loop": [()], "s_sink": [(None,), (0,), (3,)], "s_expr_helper": [(2,), ("a",)], "s_method_helper": [()],
+    "s_value_helper": [(7,)], "s_tail_helper": [(None,), (0,), (-1,), (4,)], "s_tuple_loop": [()], "s_common_return": [(0,), (2,)], "s_sink": [(None,), (0,), (3,)], "s_expr_helper": [(2,), ("a",)], "s_method_helper": [()],
     "s_boolfold": [(0,), (1,), ("",), ([],)],
 }
 
